@@ -196,11 +196,14 @@ def filterMatch (f : Filter) (i : Info) : Except MatchErr Bool :=
       | some (.str s) => compareToString f.op fv s
       | some (.bool _) => .error .invalidType
 
+/-- the body of `Query.Match`'s loop: `ok, err := f.Match(fields); if err != nil { return false }; if !ok { return false }` -/
+def matchOne (f : Filter) (i : Info) : Bool :=
+  match filterMatch f i with
+  | .ok true => true
+  | _ => false
+
 /-- `Query.Match`: every filter matches; an error counts as no match.  The blank query matches everything. -/
-def queryMatch (q : List Filter) (i : Info) : Bool :=
-  q.all fun f => match filterMatch f i with
-    | .ok true => true
-    | _ => false
+def queryMatch (q : List Filter) (i : Info) : Bool := q.all (matchOne · i)
 
 /-! ## browser.go and servers_list.go: where queries come from -/
 
